@@ -99,8 +99,9 @@ var checks = []Check{
 			{Pkg: "proc", Scenarios: []string{"C09/listener"}, Shards: 16, QuickS: 80, ThoroughS: 240},
 			{Pkg: "proc", Scenarios: []string{"C09/limit"}, Shards: 8, QuickS: 60, ThoroughS: 240},
 			{Pkg: "proc/redis", Scenarios: []string{"C09/redis-stop"}, Shards: 16, QuickS: 80, ThoroughS: 240},
-			{Pkg: "proc/redis", Scenarios: []string{"C09/redis-replace"}, Shards: 8, QuickS: 90, ThoroughS: 240},
+			{Pkg: "proc/redis", Scenarios: []string{"C09/redis-replace"}, Shards: 16, QuickS: 150, ThoroughS: 240},
 			{Pkg: "proc/redis", Scenarios: []string{"C09/redis-collect"}, Shards: 16, QuickS: 80, ThoroughS: 240},
+			{Pkg: "proc/tcp", Scenarios: []string{"C09/tcp-healthcheck-update"}, Shards: 8, QuickS: 90, ThoroughS: 240},
 			{Pkg: "proc/tcp", Scenarios: []string{"C09/tcp-stop"}, Shards: 16, QuickS: 60, ThoroughS: 240},
 			{Pkg: "proc/internal/hc", Scenarios: []string{"C09/hc-many-hosts"}, Shards: 4, QuickS: 120, ThoroughS: 240},
 			{Pkg: "proc/internal/hc", Scenarios: []string{"C09/hc-checkers"}, Shards: 16, QuickS: 120, ThoroughS: 240},
